@@ -266,7 +266,7 @@ theorem diskFold_inv (created : Relevant) (coins : CoinMap) (l : List CoinID) :
 
 theorem loadRelevantCoins_eq (s : State) (txs : List Tx) :
     loadRelevantCoins s txs =
-      if !(txs.all fun tx => tx.isWellFormed && tx.melTotalFits) then .reject .malformedTx else
+      if !(txs.all fun tx => tx.isWellFormed && tx.melTotalFits && tx.covWeightsFit) then .reject .malformedTx else
       (Outcome.foldlM' (diskStep (createdOf s.height txs) s.coins) [] (txs.flatMap (·.inputs))).bind fun disk =>
         if (txs.flatMap (·.inputs)).Nodup then .ok ((createdOf s.height txs).extend disk.reverse)
         else .reject .nonexistentCoin := rfl
@@ -274,7 +274,7 @@ theorem loadRelevantCoins_eq (s : State) (txs : List Tx) :
 /-- everything `loadRelevantCoins` guarantees when it succeeds -/
 theorem loadRelevantCoins_ok {s : State} {txs : List Tx} {rel : Relevant}
     (h : loadRelevantCoins s txs = .ok rel) :
-    (∀ tx ∈ txs, tx.isWellFormed = true ∧ tx.melTotalFits = true) ∧
+    (∀ tx ∈ txs, tx.isWellFormed = true ∧ tx.melTotalFits = true ∧ tx.covWeightsFit = true) ∧
     (txs.flatMap (·.inputs)).Nodup ∧
     (∀ inp ∈ txs.flatMap (·.inputs), (s.coins.getCoin inp).isSome ∨ ((createdOf s.height txs).get inp).isSome) ∧
     (∀ k c, (createdOf s.height txs).get k = some c → rel.get k = some c) ∧
@@ -289,8 +289,8 @@ theorem loadRelevantCoins_ok {s : State} {txs : List Tx} {rel : Relevant}
     · rename_i hnd
       cases h
       obtain ⟨i1, i2⟩ := diskFold_inv _ _ _ _ _ hd
-      have hwf' : ∀ tx ∈ txs, tx.isWellFormed = true ∧ tx.melTotalFits = true := by
-        simpa using hwf
+      have hwf' : ∀ tx ∈ txs, tx.isWellFormed = true ∧ tx.melTotalFits = true ∧ tx.covWeightsFit = true := by
+        simpa [and_assoc] using hwf
       have hdisk : ∀ k c, disk.get k = some c →
           (createdOf s.height txs).get k = none ∧ s.coins.getCoin k = some c := by
         intro k c hk
